@@ -62,7 +62,7 @@ func checkControllerTable(c *Ctx) {
 		if e == nil {
 			return nil
 		}
-		return &Term{K: "selrecv", S: fmt.Sprint(e.Arm), A: []*Term{e.Res}}
+		return selRecvTerm(e)
 	}
 	resultField := func(pa *Path, f string) func(*Term) bool {
 		rv := recvOf(pa)
